@@ -162,6 +162,9 @@ func genCase(r *hx.Rand, tier string) *caseT {
 	if r.Chance(1, 5) {
 		k.Opt.ExclExts = []string{".png", ".gz"}
 	}
+	if !simple && r.Chance(1, 2) {
+		k.Opt.Seq = deriveSeq(r, k.Opt)
+	}
 	k.Path = hx.Pick(r, pathPool)
 	k.AE = genAE(r, simple)
 	if r.Chance(3, 5) { // make sure the middleware is usually active
@@ -659,4 +662,79 @@ func fixedCases() []*caseT {
 		{Path: "/p", AE: gz, Prog: []opT{{K: "H", Key: "Content-Encoding", Vals: []string{"x-own"}}, {K: "B", Data: []byte("<html>own")}}},
 		{Path: "/p", AE: gz, Opt: optT{MinSize: 600}, Prog: []opT{{K: "B", Data: append([]byte("<html>"), bytes.Repeat([]byte("x"), 300)...)}, {K: "B", Data: bytes.Repeat([]byte("y"), 400)}}},
 	}
+}
+
+// deriveSeq spells the options o amounts to as a list of With… calls the way callers write them: values that a later
+// call overrides (last one wins), a threshold that is negative instead of 0, levels outside the valid range, the
+// Disabled options repeated, exclusion lists split over several calls with duplicates, a logger — in mixed order.
+// Expected to amount to o: the generator's size biases rely on that, the verdict does not (the model folds Seq itself).
+func deriveSeq(r *hx.Rand, o optT) []optItem {
+	var early, late []optItem
+	ms := o.MinSize
+	if ms == 0 && r.Chance(1, 2) {
+		ms = -hx.Pick(r, []int{1, 2, 100, 512, 4096})
+	}
+	late = append(late, optItem{K: "ms", N: ms})
+	for range r.Intn(3) {
+		early = append(early, optItem{K: "ms", N: hx.Pick(r, []int{0, 1, 16, 512, 1024, 4096, -1, r.Range(1, 5000)})})
+	}
+	if o.GzipLevel != nil {
+		late = append(late, optItem{K: "gl", N: *o.GzipLevel})
+		if r.Chance(1, 2) {
+			early = append(early, optItem{K: "gl", N: hx.Pick(r, []int{-1, 0, 1, 9, 42, -7})})
+		}
+	}
+	if o.BrLevel != nil {
+		late = append(late, optItem{K: "bl", N: *o.BrLevel})
+		if r.Chance(1, 2) {
+			early = append(early, optItem{K: "bl", N: hx.Pick(r, []int{0, 4, 11, 12, 99, -1})})
+		}
+	}
+	put := func(it optItem) {
+		if r.Chance(1, 2) {
+			early = append(early, it)
+		} else {
+			late = append(late, it)
+		}
+	}
+	if o.NoGzip {
+		for range 1 + r.Intn(2) {
+			put(optItem{K: "ng"})
+		}
+	}
+	if o.NoBr {
+		for range 1 + r.Intn(2) {
+			put(optItem{K: "nb"})
+		}
+	}
+	split := func(k string, l []string) {
+		if len(l) == 0 {
+			if r.Chance(1, 6) {
+				put(optItem{K: k}) // a call without arguments
+			}
+			return
+		}
+		cut := r.Intn(len(l) + 1)
+		put(optItem{K: k, L: append([]string(nil), l[:cut]...)})
+		rest := append([]string(nil), l[cut:]...)
+		if r.Chance(1, 3) {
+			rest = append(rest, l[r.Intn(len(l))]) // a duplicate
+		}
+		put(optItem{K: k, L: rest})
+	}
+	split("ect", o.ExclCT)
+	split("ep", o.ExclPaths)
+	split("ee", o.ExclExts)
+	if r.Chance(1, 4) {
+		put(optItem{K: "lg"})
+	}
+	shuffle := func(l []optItem) {
+		for i := len(l) - 1; i > 0; i-- {
+			j := r.Intn(i + 1)
+			l[i], l[j] = l[j], l[i]
+		}
+	}
+	shuffle(early)
+	shuffle(late)
+	return append(early, late...)
 }
